@@ -567,28 +567,98 @@ def _check_id_action(ctx, lx):
     if len(cases) != 1:
         raise AnalysisError("the identifier action (case _RegexAction.ID) of CLexer._match_token was not found")
     body = cases[0].body
-    ok = False
-    why = ""
-    if len(body) >= 2 and isinstance(body[0], ast.Assign):
-        first = S.unparse(body[0].value)
-        kw_first = first.startswith("_keyword_map.get(") and first.endswith(", 'ID')")
-        second = body[1]
-        lookup = isinstance(second, ast.If) and "type_lookup_func" in S.unparse(second.test) and "== 'ID'" in S.unparse(second.test) and S.unparse(second.test).index("== 'ID'") < S.unparse(second.test).index("type_lookup_func")
-        # ... and nothing but those two tests decides: every non-keyword identifier is put to the typedef lookup, whatever surrounds it
-        if lookup:
-            conj = second.test.values if isinstance(second.test, ast.BoolOp) and isinstance(second.test.op, ast.And) else [second.test]
-            inner = second
-            while len(inner.body) == 1 and isinstance(inner.body[0], ast.If) and not inner.body[0].orelse and not inner.orelse:
-                inner = inner.body[0]
-                conj = conj + (inner.test.values if isinstance(inner.test, ast.BoolOp) and isinstance(inner.test.op, ast.And) else [inner.test])
-            extra = [c for c in conj if not ((isinstance(c, ast.Compare) and S.unparse(c).endswith("== 'ID'")) or (isinstance(c, ast.Call) and isinstance(c.func, ast.Attribute) and c.func.attr == "type_lookup_func"))]
-            if extra:
-                lookup = False
-                why_extra = f"; the lookup is also conditioned on `{S.unparse(extra[0])}`"
-            second = inner if not extra else second
-        sets_typeid = lookup and any(isinstance(s, ast.Assign) and isinstance(s.value, ast.Constant) and s.value.value == "TYPEID" for s in second.body)
-        ok = kw_first and lookup and sets_typeid and len(body) == 2
-        why = f"keyword map first={kw_first}, lookup exactly for non-keywords={lookup}, TYPEID only there={sets_typeid}" + locals().get("why_extra", "")
+    # The action is evaluated as the small decision function it is, for the three situations that matter: the spelling is a keyword (the keyword
+    # map answers K), it is not and the typedef lookup says yes, it is not and the lookup says no.  Expected: K without consulting the lookup,
+    # "TYPEID", "ID".  Whatever shape the statements have (dict.get with or without default, one test or an if / elif / else ladder).
+    class _Unknown(Exception):
+        pass
+
+    def run_action(kw, lookup_answer):
+        env = {}
+        calls = {"lookup": 0}
+
+        def ev(e):
+            if isinstance(e, ast.Constant):
+                return e.value
+            if isinstance(e, ast.Name):
+                if e.id in env:
+                    return env[e.id]
+                raise _Unknown(e.id)
+            if isinstance(e, ast.NamedExpr):
+                env[e.target.id] = ev(e.value)
+                return env[e.target.id]
+            if isinstance(e, ast.Call) and isinstance(e.func, ast.Attribute) and e.func.attr == "get" and S.unparse(e.func.value) == "_keyword_map":
+                dflt = ev(e.args[1]) if len(e.args) > 1 else None
+                return kw if kw is not None else dflt
+            if isinstance(e, ast.Call) and isinstance(e.func, ast.Attribute) and e.func.attr == "type_lookup_func":
+                calls["lookup"] += 1
+                return lookup_answer
+            if isinstance(e, ast.Compare) and len(e.ops) == 1:
+                l, r = ev(e.left), ev(e.comparators[0])
+                op = e.ops[0]
+                if isinstance(op, ast.Eq):
+                    return l == r
+                if isinstance(op, ast.NotEq):
+                    return l != r
+                if isinstance(op, ast.Is):
+                    return l is r
+                if isinstance(op, ast.IsNot):
+                    return l is not r
+                if isinstance(op, ast.In) and S.unparse(e.comparators[0]) == "_keyword_map":
+                    return kw is not None
+                raise _Unknown(S.unparse(e))
+            if isinstance(e, ast.Compare) and len(e.ops) == 1 and isinstance(e.ops[0], (ast.In, ast.NotIn)):
+                raise _Unknown(S.unparse(e))
+            if isinstance(e, ast.BoolOp):
+                val = None
+                for v in e.values:
+                    val = ev(v)
+                    if isinstance(e.op, ast.And) and not val:
+                        return val
+                    if isinstance(e.op, ast.Or) and val:
+                        return val
+                return val
+            if isinstance(e, ast.UnaryOp) and isinstance(e.op, ast.Not):
+                return not ev(e.operand)
+            if isinstance(e, ast.IfExp):
+                return ev(e.body) if ev(e.test) else ev(e.orelse)
+            if isinstance(e, ast.Subscript) and S.unparse(e.value) == "_keyword_map":
+                if kw is None:
+                    raise _Unknown("KeyError")
+                return kw
+            raise _Unknown(S.unparse(e)[:60])
+
+        def run(stmts):
+            for st in stmts:
+                if isinstance(st, ast.Assign) and len(st.targets) == 1 and isinstance(st.targets[0], ast.Name):
+                    env[st.targets[0].id] = ev(st.value)
+                elif isinstance(st, ast.AnnAssign) and isinstance(st.target, ast.Name) and st.value is not None:
+                    env[st.target.id] = ev(st.value)
+                elif isinstance(st, ast.If):
+                    run(st.body if ev(st.test) else st.orelse)
+                elif isinstance(st, ast.Pass):
+                    pass
+                else:
+                    raise _Unknown(S.unparse(st)[:60])
+        run(body)
+        return env, calls["lookup"]
+    # the variable that names the token type: the one the identifier action and the other actions leave for _make_token (first argument of that call)
+    mk = [c for c in ast.walk(mt) if isinstance(c, ast.Call) and isinstance(c.func, ast.Attribute) and c.func.attr == "_make_token"]
+    tvar = None
+    if mk:
+        a0 = (S.positional_args(mk[0], lx.method("CLexer", "_make_token")) or [None])[0]
+        tvar = a0.id if isinstance(a0, ast.Name) else None
+    ok, why = False, "the token-type variable handed to _make_token was not found"
+    if tvar:
+        try:
+            res = []
+            for kw, ans, want, want_calls in (("IF_KW", True, "IF_KW", 0), ("IF_KW", False, "IF_KW", 0), (None, True, "TYPEID", 1), (None, False, "ID", 1)):
+                env, ncalls = run_action(kw, ans)
+                res.append((env.get(tvar), ncalls, want, want_calls))
+            ok = all(got == want and n_ == wn for got, n_, want, wn in res)
+            why = "; ".join(f"keyword={kw!r}, lookup says {ans}: type {got!r} after {n_} lookup(s) (expected {want!r}, {wn})" for (kw, ans, _w, _c), (got, n_, want, wn) in zip((("K", True, 0, 0), ("K", False, 0, 0), (None, True, 0, 0), (None, False, 0, 0)), res))
+        except _Unknown as ex_:
+            ok, why = False, f"the identifier action contains a construct the decision evaluator does not know: {ex_}"
     typeid_elsewhere = [n for n in ast.walk(lx.tree) if isinstance(n, ast.Constant) and n.value == "TYPEID"]
     ctx.oblige("R-C04.2", "identifier action: keyword map, then typedef lookup", ok and len(typeid_elsewhere) == 1, sample={"rule": "R-C04.2", "verdict": why})
     if not (ok and len(typeid_elsewhere) == 1):
